@@ -119,6 +119,11 @@ def _is_int(v: Any) -> bool:
     return isinstance(v, int)
 
 
+def _dict_of_json_scalars(v: Any) -> bool:
+    """The dict form of a complex DPT value with scalar members: a member that cannot be represented must give ConversionError."""
+    return isinstance(v, dict) and bool(v) and all(x is None or isinstance(x, bool | int | float | str) for x in v.values())
+
+
 def _fields_are_ints(v: Any) -> bool:
     """Dataclass-like value whose numeric fields are all ints (a 'number list' of the right kind)."""
     slots = getattr(type(v), "__dataclass_fields__", None)
@@ -272,7 +277,7 @@ def _rv_targets(ctx: Any) -> list[Target]:
             rv(f"RemoteValueSensor[{vt}]", f"RemoteValueSensor[dpt{main}]", lambda x, vt=vt: RemoteValueSensor(x, GA, value_type=vt), vals, _is_int, methods=("set",))
         elif issubclass(dpt, DPTComplex):
             vals = _complex_values(ctx, dpt)
-            rv(f"RemoteValueSensor[{vt}]", f"RemoteValueSensor[dpt{main}]", lambda x, vt=vt: RemoteValueSensor(x, GA, value_type=vt), vals, _fields_are_ints, methods=("set",))
+            rv(f"RemoteValueSensor[{vt}]", f"RemoteValueSensor[dpt{main}]", lambda x, vt=vt: RemoteValueSensor(x, GA, value_type=vt), vals, lambda v: _fields_are_ints(v) or _dict_of_json_scalars(v), methods=("set",))
         else:  # strings
             vals = ["", "a", "KNX is OK", "x" * 14, "x" * 15, "x" * 100, "äöü€", "\x00", "\udcff", "𝄞" * 14, 5, 1.5, None, b"abc", ["a"]]
             rv(f"RemoteValueString[{vt}]", "RemoteValueString", lambda x, vt=vt: RemoteValueString(x, GA, value_type=vt), vals, lambda v: False, methods=("set", "value_respond"))
@@ -334,7 +339,7 @@ def _complex_values(ctx: Any, dpt: Any) -> list[Any]:
         vals.append(d)
         if d:
             k = rng.choice(sorted(d))
-            for bad in (-1, 256, 65536, 2**32, 1.5, None, "x", NAN, 10**30):
+            for bad in (-1, 256, 65536, 2**32, 1.5, None, "x", NAN, 10**30, INF, -INF, 10**400, 1e300):
                 d2 = dict(d)
                 d2[k] = bad
                 vals.append(d2)
@@ -372,6 +377,19 @@ def _device_targets(ctx: Any) -> list[Target]:
                 tag = f"{mode.name},{step},{'target-writable' if wt else 'shift-only'}"
                 dev(f"Climate.set_setpoint_shift[{tag}]", lambda x, mode=mode, step=step, wt=wt: climate_shift(x, mode, step, wt).set_setpoint_shift, _num_values(ctx, -6, 6, step), _is_num)
                 dev(f"Climate.set_target_temperature[{tag}]", lambda x, mode=mode, step=step, wt=wt: climate_shift(x, mode, step, wt).set_target_temperature, temp, _is_num)
+    def climate_extreme(x: Any, target: float, shift: int) -> Climate:
+        c = Climate(x, "c", group_address_target_temperature="1/2/4", group_address_target_temperature_state="1/2/5", group_address_setpoint_shift=GA,
+                    group_address_setpoint_shift_state="1/2/6", setpoint_shift_mode=SetpointShiftMode.DPT6010, temperature_step=0.1)
+        c.process(incoming("1/2/5", DPTTemperature.to_knx(target)))
+        c.process(incoming("1/2/6", DPTValue1Count.to_knx(shift)))
+        return c
+
+    # target temperature at the edge of DPT 9.001 on the bus: the derived new target (base + offset) may not be representable
+    for target, shift in ((670760.0, -127), (-273.0, 127), (670000.0, 0)):
+        dev(f"Climate.set_setpoint_shift[target-state={target},shift-state={shift}]", lambda x, target=target, shift=shift: climate_extreme(x, target, shift).set_setpoint_shift,
+            [-6, -1, 0, 0.5, 1, 6, 100, NAN], _is_num, mech="Climate.set_setpoint_shift")
+        dev(f"Climate.set_target_temperature[target-state={target},shift-state={shift}]", lambda x, target=target, shift=shift: climate_extreme(x, target, shift).set_target_temperature,
+            [-300, -273, 0, 21, 670760, 670761, 1e9], _is_num, mech="Climate.set_target_temperature")
     for fsm in FanSpeedMode:
         dev(f"Climate.set_fan_speed[{fsm.name}]", lambda x, fsm=fsm: Climate(x, "c", group_address_fan_speed=GA, fan_speed_mode=fsm).set_fan_speed, pct, _is_num)
     dev("Climate.set_swing", lambda x: Climate(x, "c", group_address_swing=GA).set_swing, bools, _is_int)
@@ -494,6 +512,11 @@ def _noarg(obj: Any, *names: str) -> Any:
     return call
 
 
+def _value_respond(rv: Any, v: Any) -> None:
+    rv.value = v
+    rv.respond()
+
+
 def _helper_targets(ctx: Any) -> list[Target]:
     out: list[Target] = []
     raw = _raw_lists(ctx)
@@ -515,7 +538,7 @@ def _helper_targets(ctx: Any) -> list[Target]:
             judge = _is_int
         elif issubclass(dpt, DPTComplex):
             vals = [v for v in _complex_values(ctx, dpt) if isinstance(v, dict | int | float | str | list) or v is None]
-            judge = lambda v: False  # noqa: E731
+            judge = _dict_of_json_scalars
         else:
             vals = ["", "abc", "x" * 14, "x" * 15, "€uro", 5, None, ["a"]]
             judge = lambda v: False  # noqa: E731
@@ -526,6 +549,45 @@ def _helper_targets(ctx: Any) -> list[Target]:
         if dpt.value_type:
             out.append(Target(f"mcp.send_group_value_write[{dpt.value_type}]", f"mcp.send_group_value_write[dpt{main}]",
                               lambda x, vt=dpt.value_type: (lambda v: send_group_value_write(x, GroupValueWriteInput(group_address=GA, value=v, value_type=vt))), vals[::q], judge))
+    # value_type objects that are not a concrete DPT: every non-concrete node of the DPT class tree and DPT-ish junk,
+    # through every entry point that takes a value_type object. The object is built inside the call, so a refusal at
+    # construction is a refusal of the call (class recorded); whatever is accepted must still serialise.
+    concrete = set(DPTBase.dpt_class_tree())
+
+    def _walk(c: Any) -> Any:
+        for sub in c.__subclasses__():
+            yield sub
+            yield from _walk(sub)
+
+    non_concrete = [c for c in dict.fromkeys([DPTBase, *_walk(DPTBase)]) if c not in concrete]
+    import types as _types
+
+    junk_types: list[tuple[str, Any]] = [(f"abstract {c.__name__}", c) for c in non_concrete] + [
+        ("class int", int), ("class DPTArray", DPTArray), ("class object", object), ("module", _types), ("DPTArray instance", DPTArray((1,))),
+        ("empty tuple", ()), ("list of class", [DPTTemperature]), ("bytes", b"9.001"), ("float", 9.001), ("True", True), ("lambda", lambda: DPTTemperature),
+    ]
+    try:
+        junk_types.append(("DPT instance", DPTTemperature()))
+    except Exception:  # noqa: BLE001 - not instantiable: nothing to pass
+        pass
+    jvals = [0, 1, 21.5, -1, 255, 256, True, "abc", "comfort", None, [1, 2], {"red": 1, "green": 2, "blue": 3}]
+    never = lambda v: False  # noqa: E731 - a refusal here is about the value_type, not the value
+    for label, vt in junk_types:
+        mech = "abstract-dpt-class" if label.startswith("abstract") else "junk-value-type"
+        entries: list[tuple[str, Any]] = [
+            ("group_value_write", lambda x, vt=vt: (lambda v: group_value_write(x, GA, v, value_type=vt))),
+            ("group_value_response", lambda x, vt=vt: (lambda v: group_value_response(x, GA, v, value_type=vt))),
+            ("mcp.send_group_value_write", lambda x, vt=vt: (lambda v: send_group_value_write(x, GroupValueWriteInput(group_address=GA, value=v, value_type=vt)))),
+            ("NumericValue.set", lambda x, vt=vt: (lambda v: NumericValue(x, "n", group_address=GA, value_type=vt).set(v))),
+            ("ExposeSensor.set", lambda x, vt=vt: (lambda v: ExposeSensor(x, "e", group_address=GA, value_type=vt).set(v))),
+            ("Notification.set", lambda x, vt=vt: (lambda v: Notification(x, "n", group_address=GA, value_type=vt).set(str(v)))),
+            ("RemoteValueSensor.set", lambda x, vt=vt: (lambda v: RemoteValueSensor(x, GA, value_type=vt).set(v))),
+            ("RemoteValueNumeric.set", lambda x, vt=vt: (lambda v: RemoteValueNumeric(x, GA, value_type=vt).set(v))),
+            ("RemoteValueString.set", lambda x, vt=vt: (lambda v: RemoteValueString(x, GA, value_type=vt).set(v))),
+            ("RemoteValueSensor.value_respond", lambda x, vt=vt: (lambda v: _value_respond(RemoteValueSensor(x, GA, value_type=vt), v))),
+        ]
+        for ename, mk in entries:
+            out.append(Target(f"{ename}[value_type={label}]", f"{ename}[{mech}]", mk, jvals, never))
     # unknown value types / bad addresses: refusal must not queue
     for bad_vt in ("no_such_type", "9.999", 9.001, ("a",)):
         out.append(Target(f"group_value_write[value_type={bad_vt!r}]", "group_value_write[unknown-value-type]", lambda x, bad_vt=bad_vt: (lambda v: group_value_write(x, GA, v, value_type=bad_vt)), [1, 21.5, [1]], lambda v: False))
@@ -670,7 +732,7 @@ def run(ctx: Any) -> None:
         "group_value_write/response raw / value_type string / class, MCP send_group_value_write) x values (fixed boundary list, per-DPT "
         "min/max +- step, seeded random ints/floats, wrong-typed objects); distinct = (mechanism prefix, outcome class, value shape, #telegrams)"
     )
-    ctx.require("calls_accepted", "calls_rejected", "telegrams_serialised", "telegrams_reparsed_equal", "rejections_with_queue_unchanged", "rejected_with_ConversionError")
+    ctx.require("calls_accepted", "calls_rejected", "telegrams_serialised", "telegrams_reparsed_equal", "rejections_with_queue_unchanged", "rejected_with_ConversionError", "expose_scenarios", "expose_scenario_frames_sent")
     h = Harness()
     try:
         targets = _all_targets(ctx)
@@ -687,10 +749,67 @@ def run(ctx: Any) -> None:
                 elif out.startswith("rejected") and 2 <= len(ctx.samples) < 4:
                     ctx.sample({"target": target.name, "value": _r(value, 80), "outcome": out})
         ctx.extra["targets_by_owner"] = dict(sorted(kinds.items()))
+        _expose_scenarios(ctx)
         # end-to-end spot check through the real queue: what was judged serialisable really reaches the interface
         _end_to_end(ctx, h)
     finally:
         h.close()
+
+
+def _expose_scenarios(ctx: Any) -> None:
+    """ExposeSensor with cooldown / periodic sending queues telegrams on its own later: they must be sendable too.
+
+    Runs on a started XKNX (real queue, task registry, virtual time); the observation is what the real CEMIHandler hands to
+    the interface: a frame that cannot be serialised there is a queued telegram whose payload cannot be put on the wire.
+    """
+    rng = ctx.rng
+    ops = ("set", "set_same", "initialize_none", "initialize_value", "incoming_write", "incoming_read", "wait_short", "wait_cooldown")
+    for k in range(ctx.scale(250, 4000)):
+        if not ctx.mine(k):
+            continue
+        ctx.ev()
+        h = Harness()
+        history: list[str] = []
+        try:
+            h.start()
+            vt, good, payload = rng.choice((("percent", [0, 50, 100], DPTArray(0x10)), ("temperature", [0.0, 21.5, -5.0], DPTArray((0x0C, 0x1A))), ("binary", [True, False], DPTBinary(1)),
+                                            ("string", ["", "abc"], DPTArray(bytes(14)))))
+            e = ExposeSensor(h.xknx, "e", group_address=GA, value_type=vt, cooldown=rng.choice((0, 1, 5)), periodic_send=rng.choice((0, 0, 7)), respond_to_read=rng.random() < 0.7)
+            h.call(h.xknx.devices.async_add, e)
+            last = good[0]
+            for _ in range(rng.randint(3, 9)):
+                op = rng.choice(ops) if history else "set"
+                history.append(op)
+                try:
+                    if op == "set":
+                        last = rng.choice(good)
+                        h.call(e.set, last)
+                    elif op == "set_same":
+                        h.call(e.set, last, True)
+                    elif op == "initialize_none":
+                        e.initialize_value(None)
+                    elif op == "initialize_value":
+                        e.initialize_value(rng.choice(good))
+                    elif op == "incoming_write":
+                        h.feed([incoming(GA, payload)])
+                    elif op == "incoming_read":
+                        h.feed([incoming(GA, None)])
+                    if op.startswith("wait") or rng.random() > 0.4:  # else: the next call comes while telegrams are still queued
+                        h.settle(advance=0.0 if op.startswith(("set", "init")) and rng.random() < 0.5 else 0.3 if op != "wait_cooldown" else 16.0)
+                except ConversionError:
+                    history[-1] += ":refused"
+            h.settle(advance=20.0)
+            ctx.count("expose_scenarios")
+            ctx.count("expose_scenario_frames_sent", len(h.iface.sent))
+            ctx.distinct(("expose", vt, tuple(sorted(set(history)))))
+            if h.iface.send_errors:
+                ctx.violation("ExposeSensor-queues-unserialisable-telegram-on-its-own",
+                              {"value_type": vt, "cooldown_and_periodic": str(e), "history": history, "errors": [repr(x)[:120] for x in h.iface.send_errors[:3]], "count": len(h.iface.send_errors)},
+                              f"ExposeSensor[{vt}] after {history}: {len(h.iface.send_errors)} telegram(s) it queued could not be serialised by the interface: {h.iface.send_errors[0]!r:.100}")
+            else:
+                ctx.count("expose_scenarios_all_frames_serialised")
+        finally:
+            h.close()
 
 
 def _end_to_end(ctx: Any, h: Harness) -> None:
